@@ -6,7 +6,9 @@ behaviour (the `out` emitted by TLC at `done`, the observable states of EmitStep
 the model to any shape, threshold and (exactly representable) omega sequence, which is what judges
 the long random replays that TLC cannot enumerate.  Intensities and omegas may be ints or
 Fractions (exact values of float32 inputs); `maxfix` is the spec's MAXFIX (rule for the maximum
-pixel of a blob whose pixels are all <= 0).
+pixel of a blob whose pixels are all <= 0).  A not-a-number pixel (the spec's NaN) is a float nan in
+a frame: every membership test here is `value > thr`, which is False for nan as Above() is in the
+spec, so such a pixel is background, joins nothing and is never summed.
 
 Rows are lists of 22 numbers in the blobs.h column order s_1 .. bb_mn_o (FIELDS).
 """
@@ -29,6 +31,8 @@ def exact(x):
     if isinstance(x, (int, Fraction)):
         return x
     x = float(x)
+    if x != x:
+        return x                # a not-a-number pixel stays a float nan: `nan > thr` is False (background)
     return int(x) if x.is_integer() else Fraction(x)
 
 
